@@ -71,12 +71,11 @@ func conGenLine(r *Rng, origin string, dttl uint32, start, stop, step int64) (st
 		typ = dns.TypeCNAME
 		rhs = []piece{genIterPiece(r), {lit: ".target"}}
 	}
-	ttl := ""
-	ttlv := dttl
-	if r.Bool() {
-		ttlv = ttlVals[r.Intn(6)]
-		ttl = " " + strconv.FormatUint(uint64(ttlv), 10)
-	}
+	// the TTL is always stated here: what a $GENERATE line without TTL inherits is the subject of
+	// generateTTLInheritance (genttl.go), not of this class
+	_ = dttl
+	ttlv := ttlVals[r.Intn(6)]
+	ttl := " " + strconv.FormatUint(uint64(ttlv), 10)
 	text := "$GENERATE " + rg + " " + renderTemplate(owner) + ttl + " " + dns.TypeToString[typ] + " " + renderTemplate(rhs) + "\n"
 	var want []rec
 	for v := start; v <= stop; v += step {
